@@ -52,6 +52,19 @@ CHECKS = {
                 "(itself checked by C02), z3. Integer and rational environments are separate families; floats are exact reals.",
         "technique": SOLVER_TECH,
     },
+    "C06": {
+        "level": "translation_validation",
+        "text": "Per-tree translation validation: for every (parent, slot, child) skeleton of the printable fragment, every "
+                "alphabet constant in every slot, every 3-level chain over a reduced alphabet and hand-picked nestings, the "
+                "tree is printed and parsed back; both trees are evaluated on z3 proxies and z3 proves per path that they "
+                "agree for every environment. Path assertions: equal trees after order-preserving flattening, and an "
+                "identical second printed form.",
+        "design_ref": "DESIGN.md §4 C06",
+        "note": "Trusted: the evaluator as the meaning of both trees (C02), proxies, z3. The bulk families flatten every "
+                "associative n-ary node before comparing; the literal reading (sums and products only) is checked on a "
+                "dedicated family and is a known finding. Literals/identifiers come from a fixed alphabet.",
+        "technique": SOLVER_TECH + " (original vs reparsed tree)",
+    },
     "C07": {
         "level": "translation_validation",
         "text": "Per-string translation validation with the solver as equivalence checker: every operator/operand skeleton "
